@@ -91,6 +91,17 @@ Proof. destruct f_unsynch; [apply decode_or_keep_encode | reflexivity]. Qed.
 
 End Layers.
 
+(* v2.2 (and v2.3 again, through the version test of read_frames): whole-tag unsynchronisation *)
+Lemma read_frames_head_inverts (major : Z) (f_unsynch : bool) (tagbody : list Z) : major < 4 ->
+  read_frames_head major f_unsynch (if f_unsynch then unsynch_encode tagbody else tagbody) = Ok tagbody.
+Proof.
+  intros H. unfold read_frames_head. replace (major <? 4) with true by (symmetry; apply Z.ltb_lt; exact H).
+  destruct f_unsynch; [apply decode_or_keep_encode | reflexivity].
+Qed.
+
+Lemma read_frames_head_v24 (f_unsynch : bool) (data : list Z) : read_frames_head 4 f_unsynch data = Ok data.
+Proof. reflexivity. Qed.
+
 (* the order matters: with the two steps swapped (inflate first, destuff second) a concrete frame is lost.
    inflate = reverse the bytes (any non-trivial bijection will do). *)
 Definition swapped_v24 (inflate : list Z -> result (list Z)) (data : list Z) : result (list Z) :=
